@@ -55,6 +55,9 @@ impl FixtureDatabase {
                     "Failed to parse Python file {:?}: {} - keeping previous data",
                     file_path, e
                 );
+                // The cached text changed all the same, and import resolution reads it,
+                // so answers cached under the current version are no longer valid.
+                self.invalidate_cycle_cache();
                 return;
             }
         };
